@@ -1,8 +1,11 @@
-(** C03 (stage A): obligations on the translated data shared with C02; the
-    unbounded theorems are in Proofs/ParserFacts.v as they are completed. *)
+(** C03 - the parser accepts exactly the grammar and reports the first
+    malformed instruction.  Statements only; proofs are [exact] of lemmas of
+    Proofs/ErrorFacts.v, Proofs/CodecFacts.v, Proofs/ProtocolFacts.v.  G is the
+    grammar data translated from the source on this run (= the reference). *)
 From RV Require Import Model.Base Model.Spirv Model.Grammar Model.Inst Model.Parser Model.Link.
 From RV Require Import Gen.SpirvData Gen.TableData Gen.ParseData Inst.Linked.
 From RV Require Gen.RefParams Gen.RefTable Gen.RefSpirv.
+From RV Require Import Model.Bytes Model.Decoder Spec.Conforms Proofs.DecoderFacts Proofs.CodecFacts Proofs.ProtocolFacts Proofs.LoadBytesFacts Proofs.ErrorFacts.
 
 Theorem C03_tables_link :
   resolve_all op_enum core_raw = Some core_table /\
@@ -21,5 +24,115 @@ Theorem C03_grammar_is_reference :
    ss_list_eqb operand_variants RefParams.operand_variants = true).
 Proof. exact (conj layout_matches_ref (conj values_match_ref params_match_ref)). Qed.
 
+(** header: accepted iff at least five words and the magic number; the three faults are told apart *)
+Theorem C03_header_classification :
+  forall bytes,
+  ((length bytes < 20)%nat /\
+   parse_header (mkdec bytes) = Er (PHeaderIncomplete (StreamExpected (4 * (N.of_nat (length bytes) / 4)))))
+  \/
+  ((20 <= length bytes)%nat /\
+   ( (le_word bytes 0 = MAGIC /\
+      parse_header (mkdec bytes) = Ok (header_of bytes, {| rest := skipn 20 bytes; off := 20; lim := None |}))
+  \/ (le_word bytes 0 = MAGIC_SWAPPED /\ parse_header (mkdec bytes) = Er PEndianness)
+  \/ (le_word bytes 0 <> MAGIC /\ le_word bytes 0 <> MAGIC_SWAPPED /\
+      parse_header (mkdec bytes) = Er PHeaderIncorrect) )).
+Proof. exact header_classification. Qed.
+
+(** one instruction is accepted iff it conforms to the grammar of its opcode
+    (required operands present, optional ones as a trailing run, variadic ones up
+    to the declared word count, every enumerant and mask bit known and followed
+    by its parameters, no word left over): soundness ... *)
+Theorem C03_accepted_instruction_conforms :
+  forall t idx d i d1, Forall byte (rest d) -> parse_inst G t idx d = Ok (i, d1) ->
+  conforms G t i = true /\
+  exists w d0, word d = (inl w, d0) /\ (w / 65536) mod 65536 = N.of_nat (length (asm_inst i)) /\
+               w mod 65536 = i_opcode i.
+Proof. exact (fun t idx d i d1 => parse_sound_full G t idx d i d1 wf_gdata_linked). Qed.
+
+(** ... and completeness: the encoding of every conforming instruction is accepted and delivered unchanged *)
+Theorem C03_conforming_instruction_accepted :
+  forall t i, conforms G t i = true ->
+  forall r o idx,
+    parse_inst G t idx {| rest := bytes_of_words (asm_inst i) ++ r; off := o; lim := None |}
+    = Ok (i, {| rest := r; off := o + 4 * N.of_nat (length (asm_inst i)); lim := None |}).
+Proof. exact (fun t i => roundtrip G t i wf_gdata_linked). Qed.
+
+(** an accepted instruction lies entirely inside the stream and consumes exactly its declared word count *)
+Theorem C03_instruction_extent :
+  forall t idx d i d1, parse_inst G t idx d = Ok (i, d1) ->
+  exists w d0 chunk, word d = (inl w, d0) /\
+    let wc := (w / 65536) mod 65536 in
+    wc <> 0 /\ i_opcode i mod 65536 = w mod 65536 /\
+    rest d = chunk ++ rest d1 /\ N.of_nat (length chunk) = 4 * wc /\
+    off d1 = off d + 4 * wc /\ lim d1 = None.
+Proof. exact (parse_inst_exact G). Qed.
+
+(** rejection: the kind of fault, the instruction number and an offset inside the declared extent *)
+Theorem C03_error_anatomy :
+  forall t idx d e,
+  parse_inst G t idx d = Er e -> lim d = None -> (exists buf, Inv buf d) ->
+  (e = PComplete /\ (length (rest d) < 4)%nat)
+  \/ exists w d1, word d = (inl w, d1) /\
+       let wc := (w / 65536) mod 65536 in let opc := w mod 65536 in
+       ( (e = PWordCountZero (off d) idx /\ wc = 0)
+      \/ (e = POpcodeUnknown (off d) idx opc /\ wc <> 0 /\ lookup_core (gd_table G) opc = None)
+      \/ (wc <> 0 /\ lookup_core (gd_table G) opc <> None /\
+           ( (exists o, e = POperandExpected o idx /\ off d + 4 <= o <= off d + 4 * wc)
+          \/ (exists o, e = POperandExceeded o idx /\ off d + 4 <= o <= off d + 4 * wc)
+          \/ (exists o, e = PTypeUnsupported o idx /\ off d + 4 <= o <= off d + 4 * wc)
+          \/ (exists o, e = PSpecOpIncorrect o idx /\ off d + 4 <= o <= off d + 4 * wc)
+          \/ (exists de, e = POperandError de /\
+                derr_offset_within de (off d + 4) (off d + 4 * wc)) )) ).
+Proof. exact (parse_inst_error G). Qed.
+
+(** stream level: the consumer (any that keeps answering Continue) is handed
+    the header and then exactly the instructions preceding the first malformed
+    one, in stream order, once each; the parse returns that instruction's error *)
+Theorem C03_delivers_prefix_before_first_fault :
+  forall St (C : consumer St),
+  (forall s, snd (c_init C s) = Continue) -> (forall s h, snd (c_header C s h) = Continue) ->
+  (forall s i, snd (c_inst C s i) = Continue) -> (forall s, snd (c_fin C s) = Continue) ->
+  forall bytes s0 h is r, scan_bytes G bytes = (Some h, is, r) ->
+  snd (parse G C bytes s0) = r /\ delivered (log_of G C bytes s0) = is.
+Proof. exact (fun St C => @first_malformed St G C). Qed.
+
+(** the instruction number carried by the error is the 1-based number of the first malformed instruction *)
+Theorem C03_error_index_is_first_malformed :
+  forall bytes h is e k, scan_bytes G bytes = (Some h, is, Er e) -> err_index e = Some k -> k = N.of_nat (length is) + 1.
+Proof. exact (stream_error_index G). Qed.
+
+(** ... and its offset lies in that instruction's own declared extent *)
+Theorem C03_error_offset_in_first_malformed :
+  forall fuel t idx d is e, scan G fuel t idx d = (is, Er e) ->
+  exists chunks t' d',
+    chain G t idx d is chunks t' d' /\
+    parse_inst G t' (idx + N.of_nat (length is) + 1) d' = Er e /\ e <> PComplete /\
+    off d' = off d + N.of_nat (length (concat chunks)) /\
+    (forall o, err_offset e = Some o -> off d' <= o <= off d' + 4 * declared_wc d').
+Proof. exact (scan_error_first G). Qed.
+
+(** acceptance of a binary: complete header + the rest splits exactly into accepted instructions *)
+Theorem C03_binary_accepted_iff :
+  forall St (C : consumer St),
+  (forall s, snd (c_init C s) = Continue) -> (forall s h, snd (c_header C s h) = Continue) ->
+  (forall s i, snd (c_inst C s i) = Continue) -> (forall s, snd (c_fin C s) = Continue) ->
+  forall bytes s0, snd (parse G C bytes s0) = Ok tt <-> exists h is, scan_bytes G bytes = (Some h, is, Ok tt).
+Proof. exact (fun St C => @accept_iff St G C). Qed.
+
+Theorem C03_complete_scan_splits :
+  forall bytes h is, scan_bytes G bytes = (Some h, is, Ok tt) <->
+  exists d1 chunks tail, parse_header (mkdec bytes) = Ok (h, d1) /\ splits G [] 0 d1 is chunks tail.
+Proof. exact (scan_bytes_ok_iff G). Qed.
+
 Print Assumptions C03_tables_link.
 Print Assumptions C03_grammar_is_reference.
+Print Assumptions C03_header_classification.
+Print Assumptions C03_accepted_instruction_conforms.
+Print Assumptions C03_conforming_instruction_accepted.
+Print Assumptions C03_instruction_extent.
+Print Assumptions C03_error_anatomy.
+Print Assumptions C03_delivers_prefix_before_first_fault.
+Print Assumptions C03_error_index_is_first_malformed.
+Print Assumptions C03_error_offset_in_first_malformed.
+Print Assumptions C03_binary_accepted_iff.
+Print Assumptions C03_complete_scan_splits.
